@@ -1,8 +1,259 @@
+//! C15 — bridge targets inherit the bridge's mapped name, nothing else changes.
+//!
+//! Code under observation: `/repo/src/specialized_methods/mod.rs`, compiled UNCHANGED into this binary
+//! (`add_specialized_methods_to_mappings`, `Jar::get_specialized_methods`).
+//! Oracle: scenarios are generated from a DESCRIPTION (scen.rs / gen.rs); the statement's predicate is evaluated on
+//! the description (oracle.rs), names come from a reference remapper over the two generated mapping sets (R-remap of
+//! DESIGN.md 9a); the produced mappings are compared entry by entry with input + expected inserts / overwrites.
 #![allow(dead_code)]
 pub struct Official;
 pub struct Intermediary;
 pub struct Named;
+
 #[path = "/repo/src/specialized_methods/mod.rs"]
-#[allow(warnings)]
+#[allow(warnings, clippy::all)]
 mod specialized_methods;
-fn main() {}
+
+mod emitc;
+mod gen;
+mod oracle;
+mod scen;
+
+use common::{par::*, report::{finish, Meta}, *};
+use dukebox::storage::{BasicFileAttributes, ClassRepr, Jar, JarEntryEnum, ParsedJar, ParsedJarEntry, UnnamedMemJar};
+use maps::{Ins, Maps};
+use oracle::{Candidate, Effect};
+use quill::tree::mappings::Mappings;
+use scen::*;
+use specialized_methods::GetSpecializedMethods;
+use std::collections::{BTreeMap, BTreeSet};
+use std::io::Write;
+
+type PJ = ParsedJar<ClassRepr, Vec<u8>>;
+type Pair = ((String, String, String), (String, String, String));
+
+const SIG_C06_NAMED: &str = "C15 named name of the bridge through inheritance is lost: the super-type walk of the intermediary->named remapper stops at a class without mapping entry (C06 defect)";
+const SIG_C06_CAL: &str = "C15 intermediary name through inheritance is lost: the super-type walk of the official->intermediary remapper stops at a class without mapping entry (C06 defect)";
+const SIG_C06_BOTH: &str = "C15 names through inheritance are lost in both remappers: the super-type walk stops at a class without mapping entry (C06 defect)";
+
+fn parsed_jar(entries: &[(String, Vec<u8>)], rng: &mut Rng) -> PJ {
+    let mut jar = PJ { entries: indexmap::IndexMap::new() };
+    let mut order: Vec<usize> = (0..entries.len()).collect();
+    rng.shuffle(&mut order);
+    if rng.bool() { jar.entries.insert("META-INF/".into(), ParsedJarEntry { attr: BasicFileAttributes::default(), content: JarEntryEnum::Dir }); }
+    if rng.bool() { jar.entries.insert("META-INF/MANIFEST.MF".into(), ParsedJarEntry { attr: BasicFileAttributes::default(), content: JarEntryEnum::Other(b"Manifest-Version: 1.0\n".to_vec()) }); }
+    for i in order { let (n, b) = &entries[i]; jar.entries.insert(n.clone(), ParsedJarEntry { attr: BasicFileAttributes::default(), content: JarEntryEnum::Class(ClassRepr::Vec { data: b.clone() }) }); }
+    jar
+}
+fn zip_jar(entries: &[(String, Vec<u8>)], rng: &mut Rng) -> Result<UnnamedMemJar, String> {
+    let mut order: Vec<usize> = (0..entries.len()).collect();
+    rng.shuffle(&mut order);
+    let mut z = zip::ZipWriter::new(std::io::Cursor::new(Vec::new()));
+    let opt = || zip::write::FileOptions::<()>::default().last_modified_time(zip::DateTime::default());
+    z.start_file("META-INF/MANIFEST.MF", opt()).map_err(|e| e.to_string())?;
+    z.write_all(b"Manifest-Version: 1.0\n").map_err(|e| e.to_string())?;
+    for i in order { let (n, b) = &entries[i]; z.start_file(n.as_str(), opt()).map_err(|e| e.to_string())?; z.write_all(b).map_err(|e| e.to_string())?; }
+    Ok(UnnamedMemJar { data: z.finish().map_err(|e| e.to_string())?.into_inner() })
+}
+
+struct Real { out: Result<Mappings<2, (Intermediary, Named)>, String>, pairs: Result<Vec<Pair>, String> }
+
+fn run_real<J: Jar>(main: &J, libs: &[PJ], cal: &Mappings<2, (Official, Intermediary)>, map: &Mappings<2, (Intermediary, Named)>) -> Result<Real, PanicInfo> {
+    guard(|| {
+        let out = specialized_methods::add_specialized_methods_to_mappings(main, cal, libs, map).map_err(|e| format!("{e:#}"));
+        let s = |x: &java_string::JavaStr| maps::model::jstr(x);
+        let pairs = main.get_specialized_methods().map_err(|e| format!("{e:#}")).map(|sm| sm.bridge_to_specialized.iter().map(|(b, sp)|
+            ((s(b.class.as_inner()), s(b.name.as_inner()), s(b.desc.as_inner())), (s(sp.class.as_inner()), s(sp.name.as_inner()), s(sp.desc.as_inner())))).collect());
+        Real { out, pairs }
+    })
+}
+
+fn template(msg: &str) -> String {
+    let mut out = String::new(); let mut in_q = false;
+    for c in msg.chars() { if c == '"' { in_q = !in_q; if in_q { out.push_str("\"..\""); } continue; } if in_q { continue; } if c.is_ascii_digit() { if !out.ends_with('#') { out.push('#'); } continue; } out.push(c); }
+    out.chars().take(120).collect()
+}
+
+fn effect_view(effs: &[Effect]) -> Vec<(String, (String, String), String)> { effs.iter().map(|e| (e.class.clone(), e.key.clone(), e.named.clone())).collect() }
+
+/// state of the entry an effect concerns, in the INPUT mappings
+fn target_state(input: &Maps, e: &Effect) -> &'static str {
+    let Some(c) = input.classes.get(&e.class) else { return "class_lacks" };
+    match c.methods.get(&e.key) {
+        None => "inserted",
+        Some(m) if m.names[1].is_none() => "had_no_named_name",
+        Some(m) if m.names[1].as_deref() == Some(e.named.as_str()) => "already_same",
+        Some(m) if m.comment.is_some() || !m.params.is_empty() => "overwritten_with_children",
+        Some(_) => "overwritten",
+    }
+}
+
+/// Everything between "scenario + class bytes" and the verdict. `check_intents` is off for the corpus.
+fn judge(rep: &mut Report, sc: &Scenario, main_bytes: &[(String, Vec<u8>)], lib_bytes: &[Vec<(String, Vec<u8>)>], rng: &mut Rng, source: &str) {
+    let bad = |s: String| -> ! { eprintln!("HARNESS-ERROR C15: {s}"); std::process::exit(3) };
+    let cands: Vec<Candidate> = oracle::classify(&sc.main);
+    for it in &sc.intents {
+        let Some(c) = cands.iter().find(|c| c.class == it.class && c.name == it.name && c.desc == it.desc) else { bad(format!("intent without method: {it:?}")) };
+        if c.expect != it.expect { bad(format!("generator intent and oracle predicate disagree (case {:?}): intent {:?}, oracle {:?} ({})\n{}", rep.cur, it, c.expect, c.why, sc.main.render())); }
+    }
+    let effs = oracle::effects(sc, &cands, false, false);
+    let cal_q = maps::to_quill::<2, (Official, Intermediary)>(&sc.calamus, &mut Ins::Shuffle(&mut rng.fork())).unwrap_or_else(|e| bad(format!("calamus not expressible: {e:#}")));
+    let map_q = maps::to_quill::<2, (Intermediary, Named)>(&sc.mappings, &mut Ins::Shuffle(&mut rng.fork())).unwrap_or_else(|e| bad(format!("mappings not expressible: {e:#}\n{}", sc.mappings.render())));
+    let libs: Vec<PJ> = lib_bytes.iter().map(|b| parsed_jar(b, rng)).collect();
+    let input = || json!({"source": source, "main_jar": sc.main.render(), "library_jars": sc.libs.iter().map(|l| l.render()).collect::<Vec<_>>(),
+        "calamus": sc.calamus.render(), "mappings": sc.mappings.render(), "jar_kind": if sc.zip { "zip (UnnamedMemJar)" } else { "ParsedJar" },
+        "class_files_hex": main_bytes.iter().map(|(n, b)| json!({"name": n, "hex": cf::model::hex(b)})).collect::<Vec<_>>() });
+    let real = if sc.zip { rep.count("jar.zip"); let z = zip_jar(main_bytes, rng).unwrap_or_else(|e| bad(format!("zip: {e}"))); run_real(&z, &libs, &cal_q, &map_q) }
+        else { rep.count("jar.parsed"); let p = parsed_jar(main_bytes, rng); run_real(&p, &libs, &cal_q, &map_q) };
+    if !libs.is_empty() { rep.count("jar.with_library"); }
+    rep.eval();
+    let real = match real { Ok(r) => r, Err(p) => { rep.violation(format!("C15 panic {}", p.site()), json!({"panic": p.message, "at": format!("{}:{}", p.file, p.line), "input": input()})); return; } };
+
+    // ---- observation point 1: the detected pairs (official names)
+    let mut detection_ok = true;
+    match &real.pairs {
+        Err(e) => { detection_ok = false; rep.violation(format!("C15 get_specialized_methods refuses a well-formed jar: {}", template(e)), json!({"error": e, "input": input()})); }
+        Ok(pairs) => {
+            let by_bridge: BTreeMap<&(String, String, String), &(String, String, String)> = pairs.iter().map(|(b, s)| (b, s)).collect();
+            for c in &cands {
+                let key = (c.class.clone(), c.name.clone(), c.desc.clone());
+                let obs = by_bridge.get(&key);
+                let detail = |what: &str| json!({"what": what, "method": format!("{}.{}{}", c.class, c.name, c.desc), "oracle": c.why, "expected_delegate": c.spec, "observed_delegate": obs, "input": input()});
+                match (c.expect, obs) {
+                    (Expect::Must, None) => { detection_ok = false; rep.violation(format!("C15 detection: bridge not detected ({})", c.why), detail("missing pair")); }
+                    (Expect::MustNot, Some(_)) => { detection_ok = false; rep.violation(format!("C15 detection: method detected as bridge although {}", c.why), detail("unexpected pair")); }
+                    (_, Some(s)) if Some(*s) != c.spec.as_ref() => { detection_ok = false; rep.violation("C15 detection: wrong delegate recorded for a bridge", detail("delegate differs")); }
+                    (Expect::May, o) => rep.count(if o.is_some() { "open.detected" } else { "open.not_detected" }),
+                    _ => {}
+                }
+            }
+            for (b, _) in pairs { if !cands.iter().any(|c| c.class == b.0 && c.name == b.1 && c.desc == b.2) { detection_ok = false; rep.violation("C15 detection: pair for a method the jar does not contain", json!({"bridge": b, "input": input()})); } }
+        }
+    }
+
+    // ---- observation point 2: the produced mappings
+    let mut output_ok = false;
+    match &real.out {
+        Err(e) => rep.violation(format!("C15 add_specialized_methods_to_mappings refuses well-formed input: {}", template(e)), json!({"error": e, "input": input()})),
+        Ok(out_q) => {
+            maps::watch(rep, "C15", "add_specialized_methods_to_mappings", out_q, input);
+            let observed = maps::from_quill(out_q);
+            match oracle::allowed(&sc.mappings, &effs) {
+                None => rep.count("skipped.too_many_alternatives"),
+                Some(allowed) => {
+                    if allowed.iter().any(|a| *a == observed) { output_ok = true; }
+                    else {
+                        // classification only: does the observation equal what the C06 known defect (walk stops at a class
+                        // without table) would produce? Reported as a violation either way, under its own signature.
+                        let mut classified = false;
+                        for (cs, ns, sig) in [(false, true, SIG_C06_NAMED), (true, false, SIG_C06_CAL), (true, true, SIG_C06_BOTH)] {
+                            let d = oracle::effects(sc, &cands, cs, ns);
+                            if effect_view(&d) == effect_view(&effs) { continue; }
+                            if oracle::allowed(&sc.mappings, &d).is_some_and(|al| al.iter().any(|a| *a == observed)) {
+                                let lost: Vec<_> = effs.iter().zip(&d).filter(|(a, b)| a.named != b.named || a.key != b.key).map(|(a, b)| json!({"bridge": a.bridge, "class": a.class, "expected_key": a.key, "expected_named": a.named, "observed_key": b.key, "observed_named": b.named})).collect();
+                                rep.violation(sig, json!({"lost": lost, "input": input(), "observed": observed.render()}));
+                                classified = true; break;
+                            }
+                        }
+                        if !classified {
+                            let targets: BTreeSet<(String, (String, String))> = effs.iter().map(|e| (e.class.clone(), e.key.clone())).collect();
+                            let best = allowed.iter().map(|a| oracle::compare(a, &observed, &targets)).min_by_key(|d| d.len()).unwrap_or_default();
+                            let mut seen = BTreeSet::new();
+                            for (kind, at) in &best {
+                                if !seen.insert(kind.clone()) { continue; }
+                                rep.violation(format!("C15 output: {kind}"), json!({"where": at, "all_differences": best.iter().take(12).collect::<Vec<_>>(), "expected_effects": effs.iter().map(|e| json!({"bridge": e.bridge, "class": e.class, "key": e.key, "named": e.named, "mode": format!("{:?}", e.expect)})).collect::<Vec<_>>(),
+                                    "input": input(), "observed": observed.render()}));
+                            }
+                        }
+                    }
+                }
+            }
+        }
+    }
+
+    // ---- coverage (facts from the reference computation, not from the generator's wishes)
+    let confirmed = detection_ok && output_ok;
+    for it in &sc.intents { rep.count(&format!("kind.{}", it.kind)); if confirmed { rep.count(&format!("kind.{}.confirmed", it.kind)); } }
+    if oracle::has_collision(&effs) { rep.count("open.two_bridges_same_delegate_same_class"); }
+    let mut fp = String::new();
+    let mut kinds: Vec<String> = sc.intents.iter().map(|i| format!("{}:{:?}", i.kind, i.expect)).collect(); kinds.sort(); fp += &kinds.join(",");
+    for c in &cands {
+        rep.count(&format!("methods.{}", match c.expect { Expect::Must => "must_bridge", Expect::May => "open", Expect::MustNot => "must_not" }));
+        if c.expect == Expect::MustNot && c.why != "not synthetic" { rep.seen("near_miss_reasons", c.why); }
+        if c.expect == Expect::Must { rep.seen("must_reasons", c.why); for o in &c.ops { rep.seen("invoke_opcodes_in_must_bridges", &o.to_string()); } }
+    }
+    if source.starts_with("corpus") { rep.add("corpus.must_bridges", cands.iter().filter(|c| c.expect == Expect::Must).count() as u64); }
+    let mut changes = 0;
+    for e in effs.iter().filter(|e| e.expect == Expect::Must) {
+        let ts = target_state(&sc.mappings, e);
+        rep.count(&format!("target.{ts}"));
+        if ts != "class_lacks" && ts != "already_same" { changes += 1; }
+        let nsrc = match e.named_hit { None => "unchanged_intermediary_name", Some((0, _)) => "own_class_entry", Some((1, _)) => "super_type_depth1", Some(_) => "super_type_depth2plus" };
+        rep.count(&format!("name.{nsrc}"));
+        if e.named_hit.is_some_and(|h| h.1) { rep.count("name.walk_passes_class_without_entry"); }
+        if e.cal_via_tableless { rep.count("calamus.walk_passes_class_without_entry"); }
+        fp += &format!("|{ts}/{nsrc}/{}", e.named_hit.is_some_and(|h| h.1));
+    }
+    if changes > 0 { rep.count("scenarios.with_expected_change"); } else { rep.count("scenarios.expected_unchanged"); }
+    if changes > 0 || cands.iter().any(|c| c.expect == Expect::MustNot && c.why != "not synthetic") { rep.nontrivial(common::rng::fnv_str(&fp) ^ sc.main.classes.len() as u64); }
+    if confirmed && changes > 0 && sc.main.classes.len() <= 14 { rep.sample(|| json!({"source": source, "main_jar": sc.main.render(), "calamus": sc.calamus.render(), "mappings_in": sc.mappings.render(),
+        "expected_effects": effs.iter().map(|e| json!({"bridge": e.bridge, "class": e.class, "key": e.key, "named": e.named, "mode": format!("{:?}", e.expect)})).collect::<Vec<_>>(),
+        "mappings_out": real.out.as_ref().ok().map(|o| maps::from_quill(o).render())})); }
+}
+
+include!("selfcheck.rs");
+
+fn main() {
+    let mut ctx = Ctx::from_args("C15", 40, 540);
+    let replay = load_replay(&mut ctx);
+    selfcheck();
+    let mut rep = Report::new();
+
+    // ---- workload 1: generated scenarios
+    let n = ctx.tier.pick(6_000, 200_000);
+    run_cases(&ctx, &replay, &mut rep, "generated", n, |rng, rep, i| {
+        let sc = gen::gen_scenario(rng, i);
+        let bad = |s: String| -> ! { eprintln!("HARNESS-ERROR C15 (case {i}): {s}"); std::process::exit(3) };
+        let main_bytes = emitc::emit_jar(&sc.main, sc.layout_seed).unwrap_or_else(|e| bad(e));
+        let lib_bytes: Vec<_> = sc.libs.iter().map(|l| emitc::emit_jar(l, sc.layout_seed ^ 0x55).unwrap_or_else(|e| bad(e))).collect();
+        rep.count(&format!("requested.name_source.{}", sc.requested.0));
+        rep.count(&format!("requested.target.{}", sc.requested.1));
+        judge(rep, &sc, &main_bytes, &lib_bytes, rng, "generated");
+    });
+
+    // ---- workload 2: javac corpus (bridges javac really emits), generated mapping sets
+    let corpus = cf::corpus::load(&ctx.verif_dir);
+    let mut groups: BTreeMap<String, Vec<(String, Vec<u8>)>> = BTreeMap::new();
+    for (name, bytes) in corpus { let g = name.split('/').next().unwrap_or("").to_string(); groups.entry(g).or_default().push((name, bytes)); }
+    let groups: Vec<(String, Vec<(String, Vec<u8>)>)> = groups.into_iter().collect();
+    let per = ctx.tier.pick(12u64, 200);
+    run_cases(&ctx, &replay, &mut rep, "corpus", groups.len() as u64 * per, |rng, rep, i| {
+        let (g, files) = &groups[(i % groups.len() as u64) as usize];
+        let mut classes = vec![];
+        for (n, b) in files { match cf::parse::parse(b) { Ok(m) => classes.push(emitc::from_model(&m)), Err(e) => { eprintln!("HARNESS-ERROR independent parser rejects corpus class {n}: {e}"); std::process::exit(3) } } }
+        let sc = corpus_scenario(rng, classes);
+        rep.count("corpus.jars");
+        judge(rep, &sc, files, &[], rng, &format!("corpus {g}"));
+    });
+
+    let mut meta = Meta::new("exploration",
+        "scenarios generated from a description (value-type universe, 1-3 motifs = one synthetic method each with holder chain, delegate, overridden declaration, noise methods), classes emitted by cf::emit from the description and read back by the independent parser, \
+         jar as ParsedJar or zip, optional library jar, two generated mapping sets; primary motif kind x name source x target-entry state cycle with the case index; plus jars of the javac corpus with generated mapping sets. \
+         evaluations = calls of add_specialized_methods_to_mappings judged; non-trivial = the expected output differs from the input or the jar contains a synthetic near miss; distinct = (motif kinds, per expected effect: target-entry state, name source, walk through unmapped class) fingerprint")
+        .assume("names are injective per namespace; the class hierarchy is acyclic; calamus entries have both names")
+        .assume("R-remap of DESIGN.md 9a is the meaning of 'through inheritance' (depth-first over super class then interfaces in class-file order, providers in order main jar, libraries; the walk does not stop at classes without entry)")
+        .assume("a mismatch of one position is judged only when both types and every super type of the delegate's type are classes of the main jar (or the bridge's type is java/lang/Object); everything else is 'open': both outcomes accepted, counted")
+        .assume("array types are bridge-compatible only with themselves (JVMS 4.3.2: an array type is not an object type)");
+    if replay.is_none() {
+        for k in gen::KINDS { meta.oblige(format!("motif {k}: generated >= 20 times"), rep.get(&format!("kind.{k}")) >= 20); }
+        for k in ["target.inserted", "target.overwritten", "target.overwritten_with_children", "target.already_same", "target.had_no_named_name", "target.class_lacks",
+            "name.unchanged_intermediary_name", "name.own_class_entry", "name.super_type_depth1", "name.super_type_depth2plus", "name.walk_passes_class_without_entry",
+            "jar.zip", "jar.parsed", "jar.with_library", "open.detected", "scenarios.expected_unchanged"] {
+            meta.oblige(format!("at least 10 cases with {k}"), rep.get(k) >= 10);
+        }
+        meta.oblige("all four invoke opcodes occur in expected bridges", rep.seen_n("invoke_opcodes_in_must_bridges") == 4);
+        meta.oblige("near misses of every reason (zero / several callees, private, static, final, arity, incompatible types)", rep.seen_n("near_miss_reasons") >= 7);
+        meta.oblige("corpus jars with javac bridges were judged", rep.get("corpus.jars") >= 4 && rep.get("corpus.must_bridges") > 0);
+    }
+    std::process::exit(finish(&ctx, rep, meta));
+}
